@@ -109,7 +109,16 @@ def run(res, tier, seed, model_ok, search):
         ntok = C16.view_tok(order, dict(osp, line=osp["line"] and ladder != "U")).rsplit(":", 1)[0] + ":" + ladder
         line = "sexp %s %s %s %s %d %d %s %s %s" % (tok(strategy.max_order_exposure), tok(strategy.max_selection_exposure),
                                                    tok(strategy.max_market_exposure), otok, active, winners, ntok, kind, tokb(vok))
-        lines.append(line); impls.append(impl); payloads.append({"case": case, "seed": seed, "domain": "decision", "line": line, "message": last_msg})
+        # exact half-cent ties in what the exposure functions round (per selection: matched if-win / if-lose, the negative parts of the open
+        # orders on either side): where there is one, the float code and the exact model may round a figure to different cents (C16, 8.7)
+        views_all = [C16.raw_view(byid[sp["id"]], sp) for sp in specs]
+        tie_all = 0
+        for r_ in {v["sel"] for v in views_all}:
+            pp = C16.exact_parts([v for v in views_all if v["sel"] == r_])
+            tie_all += sum(common.is_tie2(x) for x in (pp[0], pp[1], sum((t[0] for t in pp[2] if t[0] < 0), Fraction(0)),
+                                                         sum((t[1] for t in pp[2] if t[1] < 0), Fraction(0))))
+        lines.append(line); impls.append(impl); payloads.append({"case": case, "seed": seed, "domain": "decision", "line": line, "message": last_msg,
+                                                                 "ties": tie_all})
         res.evaluations += 1
         res.nontrivial.add(line)
         res.distribution["decision:%s:%s%s" % (kind, impl.split(" ")[-1] if impl != "OK" else "OK", ":line" if ladder == "L" else "")] += 1
@@ -146,6 +155,11 @@ def run(res, tier, seed, model_ok, search):
                 import re
                 m = re.search(r"exposure \((-?[0-9.]+)\) is greater than strategy\.max_\w+ \((-?[0-9.]+)\)", pl.get("message") or "")
                 if ans == "OK" and m and abs(float(m.group(1)) - float(m.group(2))) < 0.005:
+                    res.tie_truncated += 1
+                    continue
+                # a figure of the blotter sits exactly on a half cent: the potential the control reports may be a cent per such figure above
+                # the exact one
+                if ans == "OK" and m and pl.get("ties") and 0 < float(m.group(1)) - float(m.group(2)) <= pl["ties"] / 100 + 1e-9:
                     res.tie_truncated += 1
                     continue
                 res.disagree({"request": line[:1500], "model": ans, "implementation": impl, "case": pl})
